@@ -83,8 +83,17 @@ def build(params):
                      'cwd': r.choice(('verif', 'tmp', 'root')),
                      'epoch': r.choice((None, 0.0, 946684800.0, 4102444800.5, float(r.randint(1, 2 ** 31)))),
                      'history': hist})
+    # the second machine of the interleaved run: another program, or the
+    # target itself under another device script
+    if r.random() < 0.5:
+        ot, _, osc = _prog(H(s, 'other'), stream(H(s, 'other'), 'p'))
+        other = {'text': ot, 'opt': r.choice((0, 2)), 'script': osc}
+    else:
+        other = {'text': text, 'opt': target['opt'],
+                 'script': scen.generated_scenario(H(s, 'other'))['script']}
+    other['schedule'] = H(s, 'schedule') % (2 ** 31)
     return {'property': PROP, 'run_seed': s, 'source': 'gen', 'text': text, 'ast': ast,
-            'target': target, 'script': script, 'envs': envs}
+            'target': target, 'script': script, 'envs': envs, 'other': other}
 
 
 def run_params(params):
@@ -139,8 +148,17 @@ def minimise_env(v, replay_fn, max_runs):
     return best
 
 
-def run_job(target, script, env, tmpdir):
-    job = {'verif': VERIF, 'env': {'epoch': env.get('epoch')},
+def _norm(run):
+    # a machine driven tick by tick never passes through run()'s epilogue:
+    # END_OF_CODE and an explicit halt at the last instruction look alike
+    d = dict(run)
+    if d.get('halt') in ('END_OF_CODE', 'NONE'):
+        d['halt'] = 'END_OF_CODE'
+    return d
+
+
+def run_job(target, script, env, tmpdir, other=None):
+    job = {'verif': VERIF, 'env': {'epoch': env.get('epoch')}, 'other': other,
            'history': env.get('history', []), 'target': target, 'script': script}
     e = dict(os.environ)
     e['PYTHONHASHSEED'] = str(env.get('hashseed', 0))
@@ -159,7 +177,8 @@ def execute(scn):
     res = Result()
     tmpdir = tempfile.mkdtemp(prefix='simqb-c20-')
     try:
-        base = run_job(scn['target'], scn['script'], {'hashseed': 0, 'cwd': 'verif'}, tmpdir)
+        base = run_job(scn['target'], scn['script'], {'hashseed': 0, 'cwd': 'verif'}, tmpdir,
+                       scn.get('other'))
         res.evals += 1
         if res.sample is None:
             res.sample = {'target': {k: v for k, v in scn['target'].items() if k != 'text'},
@@ -167,13 +186,21 @@ def execute(scn):
                           'envs': [{k: (v if k != 'history' else [h['kind'] for h in v])
                                     for k, v in e.items()} for e in scn['envs']]}
         if base['status'] == 'ok':
-            r0, r1, r2, r3 = base['runs']
+            r0, r1, r2, r3 = base['runs'][:4]
+            if len(base['runs']) > 4:
+                res.count('interleaved_runs')
+                res.count('interleave_switches', base.get('interleave_switches', 0))
+                if _norm(base['runs'][4]) != _norm(r0):
+                    res.violation('C20:run', {'what': 'a run interleaved with a second machine in the '
+                                                      'same process differs from the run alone',
+                                              'alone': r0, 'interleaved': base['runs'][4]},
+                                  dict(scn, envs=[]), sig={'where': 'interleaved'})
             if r0 != r1 or r2 != r3:
                 res.violation('C20:run', {'what': 'two runs in one process differ',
                                           'first': r0, 'second': r1},
                               dict(scn, envs=[]), sig={'where': 'same-process'})
         for env in scn['envs']:
-            out = run_job(scn['target'], scn['script'], env, tmpdir)
+            out = run_job(scn['target'], scn['script'], env, tmpdir, scn.get('other'))
             res.evals += 1
             kinds = [h['kind'] for h in env['history']]
             for k in kinds:
@@ -212,7 +239,8 @@ def execute(scn):
                                                   'history': out['history_log']}, one,
                                   sig={'aborted': 'aborted' in out['history_log']})
                 elif out['runs'][0] != base['runs'][0] or out['runs'][1] != base['runs'][0] \
-                        or out['runs'][2] != base['runs'][2] or out['runs'][3] != base['runs'][2]:
+                        or out['runs'][2] != base['runs'][2] or out['runs'][3] != base['runs'][2] \
+                        or (len(out['runs']) > 4 and _norm(out['runs'][4]) != _norm(base['runs'][0])):
                     res.violation('C20:run', {'baseline': base['runs'][0], 'got': out['runs'],
                                               'env': {k: v for k, v in env.items() if k != 'history'}},
                                   one, sig={'where': 'other-process'})
